@@ -112,8 +112,7 @@ func (c *FnCtx) instr(ins ssa.Instruction) {
 		for _, b := range x.Bindings {
 			bs = append(bs, c.v(b))
 		}
-		id := c.freshConst("closure", SInt)
-		c.fact(fmt.Sprintf("(not (= %s 0))", id))
+		id := c.closureTerm(fn, bs)
 		c.bind(x, Val{T: id, S: SInt, Fn: &FnVal{Fn: fn, Bindings: bs}, GT: x.Type()})
 		if spec := c.E.Specs.Funcs[fnKey(fn)]; spec != nil && len(spec.Requires) > 0 {
 			// preconditions of a closure over its captured variables are obliged where it is created
